@@ -13,7 +13,12 @@ Readings fixed here (each chosen so that the specification never demands more th
   the lasting taints of its NodePool (startup taints and the well-known ephemeral taints pass);
 * a taint the pod does not tolerate keeps the pod off a node also when its effect is `PreferNoSchedule`
   (the node "prefers" not to take the pod; honouring that is not over-provisioning);
-* a NodeClaim of the pass reserves room for every daemonset that may land on the instance type under consideration.
+* a NodeClaim of the pass reserves room for every daemonset that may land on the instance type under consideration;
+* a node carries exactly the labels of its Node object: a well-known label (capacity type, zone, instance type, arch, os)
+  that the object lacks (`Absent`) is NOT there for the kube-scheduler, so a daemonset whose node selector names it never
+  runs on the node and nothing is reserved for it, and a pod that selects on it cannot go there;
+* a pod that mounts PersistentVolumeClaims can use a node iff every claim resolves and SOME topology term of every volume
+  (PersistentVolume node affinity terms / StorageClass allowedTopologies are OR-ed) holds on the node's labels.
 -/
 import Karp.Spec.Scenario
 import Karp.Spec.Admissible
@@ -49,13 +54,31 @@ def toleratesEvery (tols : List Toleration) (taints : List Taint) : Bool :=
 def someTermIn (ls : Labels) (terms : List (List KExpr)) (lo hi : Nat) : Bool :=
   terms.isEmpty || ((terms.zipIdx.filter (fun (_, j) => lo ≤ j && j < hi)).any (fun (t, _) => t.all (exprOK ls)))
 
+/-- `[node name, label key]` pairs: the Node object of that node does NOT carry the (well-known) label the scenario
+    vocabulary would otherwise derive for it (nodes Karpenter does not manage need not have a capacity-type, zone,
+    instance-type, arch or os label) -/
+abbrev Absent := List (String × String)
+
+/-- the labels the kube-scheduler sees on the node -/
+def labelsOn (absent : Absent) (s : Scenario) (n : Node) : Labels :=
+  (nodeLabels s n).filter (fun kv => !absent.contains (n.name, kv.1))
+
+/-- every volume of `p` can be used from a place where `sat` tells which topology terms hold: the claim resolves (exists,
+    bound to an existing PersistentVolume or provisioned by a WaitForFirstConsumer StorageClass) and SOME term of its
+    topology holds there (terms are OR-ed; no terms = reachable from everywhere) -/
+def volumesReach (s : Scenario) (p : Pod) (sat : List KExpr → Bool) : Bool :=
+  p.volumes.all (fun v =>
+    match volumeTopology s p v with
+    | .error _ => false
+    | .ok terms => terms.isEmpty || terms.any sat)
+
 /-- node `n`, holding its bound pods and `placed` (what the pass already put there), can also take `p`, looking only
     at required terms `lo ≤ j < hi` of the pod -/
-def nodeAdmitsTerms (s : Scenario) (n : Node) (placed : List Pod) (p : Pod) (lo hi : Nat) : Bool :=
+def nodeAdmitsTerms (s : Scenario) (n : Node) (placed : List Pod) (p : Pod) (lo hi : Nat) (absent : Absent := []) : Bool :=
   match s.it? n.it with
   | none => false
   | some it =>
-    let ls := nodeLabels s n
+    let ls := labelsOn absent s n
     let taints := nodeTaints s n
     let all := n.pods ++ placed ++ [p]
     let expected := s.daemonsets.filter (fun d => dsOnNode d ls taints)
@@ -65,6 +88,7 @@ def nodeAdmitsTerms (s : Scenario) (n : Node) (placed : List Pod) (p : Pod) (lo 
     let remDaemonPods : Int := max 0 ((expected.length : Int) - (boundDaemons.length : Int))
     !n.deleting &&
     nodeSelectorOK ls p.nodeSelector && someTermIn ls p.required lo hi &&
+    volumesReach s p (fun t => t.all (exprOK ls)) &&
     toleratesEvery p.tolerations taints &&
     p.hostPorts.all (fun hp => !((n.pods ++ placed).flatMap (·.hostPorts)).any (fun u => portConflict u hp)) &&
     decide (sumCPU all + remDaemonCPU ≤ it.allocCPU) &&
@@ -72,8 +96,8 @@ def nodeAdmitsTerms (s : Scenario) (n : Node) (placed : List Pod) (p : Pod) (lo 
     decide ((all.length : Int) + remDaemonPods ≤ it.pods)
 
 /-- with every required term of the pod -/
-def nodeAdmits (s : Scenario) (n : Node) (placed : List Pod) (p : Pod) : Bool :=
-  nodeAdmitsTerms s n placed p 0 p.required.length
+def nodeAdmits (s : Scenario) (n : Node) (placed : List Pod) (p : Pod) (absent : Absent := []) : Bool :=
+  nodeAdmitsTerms s n placed p 0 p.required.length absent
 
 /-! ### Could a NodeClaim opened earlier in the pass admit the pod? -/
 
@@ -116,7 +140,9 @@ def claimAdmitsTerms (s : Scenario) (c : ClaimState) (p : Pod) (cands : List Str
         let dom := labelDomain pl c it o cands
         let terms : List (List KExpr) :=
           if p.required.isEmpty then [[]] else (p.required.zipIdx.filter (fun (_, j) => lo ≤ j && j < hi)).map (·.1)
-        terms.any (fun t => (podKeys p t).all (keyOK dom p t))))
+        terms.any (fun t => (podKeys p t).all (keyOK dom p t)) &&
+        -- some launch the NodeClaim still permits reaches every volume of the pod
+        volumesReach s p (fun t => t.all (fun e => (dom (normalizeKey e.key)).any (fun x => k8sMatch e.op e.vals x)))))
 
 def claimAdmits (s : Scenario) (c : ClaimState) (p : Pod) (cands : List String) : Bool :=
   claimAdmitsTerms s c p cands 0 p.required.length
@@ -158,7 +184,7 @@ def Progress.record (g : Progress) (s : Scenario) (e : Event) : Progress :=
       else { g with claims := g.claims ++ [(e.target, c)] }
 
 /-- verdict on one commit; `none` = fine.  A leading "[tag] " classifies the violation. -/
-def judgeEvent (s : Scenario) (cands : List String) (g : Progress) (e : Event) : Option String :=
+def judgeEvent (s : Scenario) (cands : List String) (g : Progress) (e : Event) (absent : Absent := []) : Option String :=
   match s.pod? e.pod with
   | none => some s!"[trace] commit of unknown pod {e.pod}"
   | some p =>
@@ -172,7 +198,7 @@ def judgeEvent (s : Scenario) (cands : List String) (g : Progress) (e : Event) :
       -- terms the scheduler has looked at so far: those already dropped by relaxation and the current first one
       let tried := p.required.length - e.termsLeft + 1
       let where_ := if e.kind == .new then "a NodeClaim opened for it" else s!"NodeClaim {e.target} of this pass"
-      match s.nodes.find? (fun n => nodeAdmitsTerms s n (g.placedOn n.name) p 0 tried) with
+      match s.nodes.find? (fun n => nodeAdmitsTerms s n (g.placedOn n.name) p 0 tried absent) with
       | some n => some s!"[existing] pod {p.name} was put on {where_} although node {n.name} (stage {n.stage}) could admit it next to what was already assigned there"
       | none =>
       let earlier := if e.kind == .new then g.claims else []
@@ -180,7 +206,7 @@ def judgeEvent (s : Scenario) (cands : List String) (g : Progress) (e : Event) :
       | some (i, _) => some s!"[inflight] pod {p.name} was put on a NodeClaim opened for it although NodeClaim {i} of this pass could admit it next to what was already assigned there"
       | none =>
       -- only a LATER required term (one the scheduler had not looked at yet) is satisfied by existing capacity
-      match s.nodes.find? (fun n => nodeAdmits s n (g.placedOn n.name) p) with
+      match s.nodes.find? (fun n => nodeAdmits s n (g.placedOn n.name) p absent) with
       | some n => some s!"[or-term] pod {p.name} was put on {where_} although node {n.name} satisfies a later required node-affinity term and could admit it"
       | none =>
       match earlier.find? (fun (_, c) => claimAdmits s c p cands) with
@@ -188,15 +214,15 @@ def judgeEvent (s : Scenario) (cands : List String) (g : Progress) (e : Event) :
       | none => none
 
 /-- the whole trace, in order -/
-def judgeTrace (s : Scenario) (cands : List String) : Progress → List Event → Option String
+def judgeTrace (s : Scenario) (cands : List String) (absent : Absent) : Progress → List Event → Option String
   | _, [] => none
   | g, e :: rest =>
-    match judgeEvent s cands g e with
+    match judgeEvent s cands g e absent with
     | some w => some w
-    | none => judgeTrace s cands (g.record s e) rest
+    | none => judgeTrace s cands absent (g.record s e) rest
 
-def passOK (s : Scenario) (cands : List String) (trace : List Event) : Option String :=
-  judgeTrace s cands { onNode := [], claims := [] } trace
+def passOK (s : Scenario) (cands : List String) (trace : List Event) (absent : Absent := []) : Option String :=
+  judgeTrace s cands absent { onNode := [], claims := [] } trace
 
 /-! ### Re-running provisioning while the capacity of pass 1 is still starting -/
 
